@@ -859,6 +859,12 @@ func C18(r *chk.Run) {
 		os.Exit(0)
 	}
 	for _, f := range fams {
+		replayIso(r, f.name, f.fn)
+	}
+	if r.Replay != nil {
+		return
+	}
+	for _, f := range fams {
 		if !r.TimeLeft() && !iso.IsWorker() {
 			r.Count(f.name, 0, 0, 0, false, map[string]any{"skipped": "internal deadline"})
 			continue
